@@ -5,6 +5,7 @@ import warnings
 from ..core import HarnessFault
 from ..sexp import frac, sx
 from .. import events as EV
+from .. import tweezer as T
 
 ID = "C08"
 MODULES = ["Shuttle.Props.C08"]
@@ -81,6 +82,7 @@ class Calls:
         self.lines = []
         self.rows = []
         self.sites_cache = {}
+        self.model_rows = []
 
     def layout_sites(self, key, spec):
         if key not in self.sites_cache:
@@ -94,13 +96,19 @@ class Calls:
             self.sites_cache[key] = (ss, sx_sites(ss))
         return self.sites_cache[key]
 
-    def call(self, name, mt, spec_key, spec, args, valid, src, dst, extras=(), holding_ok=False):
+    def call(self, name, mt, spec_key, spec, args, valid, src, dst, extras=(), holding_ok=False, model=None):
         """run the move; queue the simulator request. src/dst: documented source / destination sites (valid calls)"""
         ctx = self.ctx
         case = {"move": name, "layout": list(spec_key), "args": repr(args), "documented_preconditions_hold": valid}
         r = EV.run_with_events(mt, spec, args)
         ctx.count("calls")
         ctx.count("calls_" + name)
+        if model is not None:
+            try:
+                impl = "err" if r.error is not None else "ok (" + " ".join(EV.canon_pathobj(p) for p in paths_of(r.events)) + ")"
+            except Exception as e:  # noqa: BLE001
+                impl = f"<uncanonical {type(e).__name__}>"
+            self.model_rows.append((case, f"(C08 (model {model}))", impl))
         if r.error is not None:
             ctx.count("rejected")
             ctx.seen((name, spec_key, repr(args)), False)
@@ -156,6 +164,18 @@ def picked_sites(paths):
     return occ
 
 
+def cz_model(zone, a):
+    return f"cz {T.canon_grid(zone)} {' '.join(sx(list(l)) for l in a)} 2 2"
+
+
+def re_model(zone, a):
+    return f"rearrange {T.canon_grid(zone)} {' '.join(sx(list(l)) for l in a)}"
+
+
+def wp_model(wps, pick, drop):
+    return f"wp ({' '.join(T.canon_grid(g) for g in wps)}) {sx(pick)} {sx(drop)}"
+
+
 def gen_cz(C, rng, thorough):
     from bloqade.shuttle.stdlib.layouts import single_col_zone
     from kirin.dialects import ilist
@@ -178,18 +198,21 @@ def gen_cz(C, rng, thorough):
             for nm, mt in (("cz_move", single_col_zone.cz_move), ("moves.default_move_cz", old_moves.default_move_cz)):
                 if nm != "cz_move" and rng.random() < 0.6:
                     continue
-                C.call(nm, mt, key, spec, tuple(ilist.IList(l) for l in (cx, cy, qx, qy)), True, src, src, extras=tgt + others)
+                C.call(nm, mt, key, spec, tuple(ilist.IList(l) for l in (cx, cy, qx, qy)), True, src, src, extras=tgt + others,
+                       model=cz_model(zone, (cx, cy, qx, qy)))
         # invalid classes, one list at a time
         good_x, good_y = [0], [0]
         for cls, bad in invalid_lists(rng, nx).items():
             for pos in range(4):
                 a = [good_x, good_y, good_x, good_y]
                 a[pos] = bad if pos in (0, 2) else invalid_lists(rng, ny).get(cls, bad)
-                C.call("cz_move", single_col_zone.cz_move, key, spec, tuple(ilist.IList(l) for l in a), False, None, None)
+                C.call("cz_move", single_col_zone.cz_move, key, spec, tuple(ilist.IList(l) for l in a), False, None, None,
+                       model=cz_model(zone, a))
                 C.ctx.count("invalid_" + cls)
         # mismatched lengths
         if nx > 1:
-            C.call("cz_move", single_col_zone.cz_move, key, spec, tuple(ilist.IList(l) for l in ([0, 1], [0], [0], [0])), False, None, None)
+            C.call("cz_move", single_col_zone.cz_move, key, spec, tuple(ilist.IList(l) for l in ([0, 1], [0], [0], [0])), False, None, None,
+                   model=cz_model(zone, ([0, 1], [0], [0], [0])))
             C.ctx.count("invalid_mismatched")
 
 
@@ -209,14 +232,17 @@ def gen_rearrange(C, rng, thorough):
             src = view_sites(zone, a[0], a[1])
             dst = view_sites(zone, a[2], a[3])
             others = [s for s in site_list(zone) if s not in src and s not in dst and rng.random() < 0.3]
-            C.call("rearrange", two_col_zone.rearrange, key, spec, tuple(ilist.IList(l) for l in a), True, src, dst, extras=others)
+            C.call("rearrange", two_col_zone.rearrange, key, spec, tuple(ilist.IList(l) for l in a), True, src, dst, extras=others,
+                   model=re_model(zone, a))
         for cls, bad in invalid_lists(rng, 2 * nx).items():
             for pos in range(4):
                 a = [[0], [0], [0], [0]]
                 a[pos] = bad if pos in (0, 2) else invalid_lists(rng, ny).get(cls, bad)
-                C.call("rearrange", two_col_zone.rearrange, key, spec, tuple(ilist.IList(l) for l in a), False, None, None)
+                C.call("rearrange", two_col_zone.rearrange, key, spec, tuple(ilist.IList(l) for l in a), False, None, None,
+                       model=re_model(zone, a))
                 C.ctx.count("invalid_" + cls)
-        C.call("rearrange", two_col_zone.rearrange, key, spec, tuple(ilist.IList(l) for l in ([0, 1], [0], [0], [0])), False, None, None)
+        C.call("rearrange", two_col_zone.rearrange, key, spec, tuple(ilist.IList(l) for l in ([0, 1], [0], [0], [0])), False, None, None,
+               model=re_model(zone, ([0, 1], [0], [0], [0])))
         C.ctx.count("invalid_mismatched")
 
 
@@ -244,18 +270,21 @@ def gen_waypoints(C, rng, thorough):
                 dst = src if npts == 1 else view_sites(zone, lx, ly)
                 valid = True
                 if pick and drop:
-                    C.call("move_by_waypoints", waypoints.move_by_waypoints, key, spec, (ilist.IList(wps), pick, drop), valid, src, dst)
+                    C.call("move_by_waypoints", waypoints.move_by_waypoints, key, spec, (ilist.IList(wps), pick, drop), valid, src, dst,
+                           model=wp_model(wps, pick, drop))
                 elif pick:
                     C.call("move_by_waypoints", waypoints.move_by_waypoints, key, spec, (ilist.IList(wps), pick, drop), valid, src, [],
-                           holding_ok=True)
+                           holding_ok=True, model=wp_model(wps, pick, drop))
                 else:
                     # nothing is picked: nothing moves, whatever the occupancy
                     C.call("move_by_waypoints", waypoints.move_by_waypoints, key, spec, (ilist.IList(wps), pick, drop), valid, [], [],
-                           extras=src)
+                           extras=src, model=wp_model(wps, pick, drop))
     # empty list, unequal shapes
-    C.call("move_by_waypoints", waypoints.move_by_waypoints, key, spec, (ilist.IList([]), True, True), True, [], [])
+    C.call("move_by_waypoints", waypoints.move_by_waypoints, key, spec, (ilist.IList([]), True, True), True, [], [],
+           model=wp_model([], True, True))
     a, b = zone.get_view([0, 1], [0]), zone.get_view([2], [1])
-    C.call("move_by_waypoints", waypoints.move_by_waypoints, key, spec, (ilist.IList([a, b]), True, True), False, None, None)
+    C.call("move_by_waypoints", waypoints.move_by_waypoints, key, spec, (ilist.IList([a, b]), True, True), False, None, None,
+           model=wp_model([a, b], True, True))
     C.ctx.count("invalid_unequal_shapes")
 
 
@@ -268,6 +297,8 @@ def gen_gemini(C, rng, thorough):
     rows = spec.int_constants["logical_rows"]
     cs = spec.int_constants["code_size"]
     subsets = sorted_lists(rows, rows)
+    G = (f"{T.canon_grid(GL)} {T.canon_grid(GR)} {rows} {cs} {sx(frac(spec.float_constants['row_separation']))} "
+         f"{sx(frac(spec.float_constants['col_separation']))} {sx(frac(spec.float_constants['gate_spacing']))}")
     for off in range(-(rows - 1), rows):
         for col in (0, 1):
             subs = subsets if thorough else rng.sample(subsets, 6)
@@ -276,18 +307,23 @@ def gen_gemini(C, rng, thorough):
                 valid = off >= 0 and ok_rows
                 src = view_sites(GL, range(col * cs, (col + 1) * cs), rs) if valid else None
                 dst = view_sites(GR, range(col * cs, (col + 1) * cs), [r + off for r in rs]) if valid else None
-                C.call("vertical_shift", logical.vertical_shift, key, spec, (off, col, ilist.IList(rs)), valid, src, dst)
+                C.call("vertical_shift", logical.vertical_shift, key, spec, (off, col, ilist.IList(rs)), valid, src, dst,
+                       model=f"vshift {G} {off} {col} {sx(list(rs))}")
     for col in (-1, 2, 3):
-        C.call("vertical_shift", logical.vertical_shift, key, spec, (1, col, ilist.IList([0])), False, None, None)
+        C.call("vertical_shift", logical.vertical_shift, key, spec, (1, col, ilist.IList([0])), False, None, None,
+               model=f"vshift {G} 1 {col} (0)")
         C.ctx.count("invalid_column")
     for cls, bad in invalid_lists(rng, rows).items():
-        C.call("vertical_shift", logical.vertical_shift, key, spec, (0, 0, ilist.IList(bad)), False, None, None)
-        C.call("gr_zero_to_one", logical.gr_zero_to_one, key, spec, (ilist.IList(bad),), False, None, None)
+        C.call("vertical_shift", logical.vertical_shift, key, spec, (0, 0, ilist.IList(bad)), False, None, None,
+               model=f"vshift {G} 0 0 {sx(list(bad))}")
+        C.call("gr_zero_to_one", logical.gr_zero_to_one, key, spec, (ilist.IList(bad),), False, None, None,
+               model=f"gr01 {G} {sx(list(bad))}")
         C.ctx.count("invalid_" + cls)
     for rs in subsets:
         src = view_sites(GR, range(0, cs), rs)
         dst = view_sites(GR, range(cs, 2 * cs), rs)
-        C.call("gr_zero_to_one", logical.gr_zero_to_one, key, spec, (ilist.IList(rs),), True, src, dst)
+        C.call("gr_zero_to_one", logical.gr_zero_to_one, key, spec, (ilist.IList(rs),), True, src, dst,
+               model=f"gr01 {G} {sx(list(rs))}")
 
 
 def run(ctx):
@@ -322,6 +358,15 @@ def run(ctx):
         got = m.split(" ", 2 if kind == "holding" else 1)[-1]
         if got != sx_sites(want):
             ctx.fail(c2, f"{case['move']}{case['args']}: atoms end on {got[:200]}, documented destination {sx_sites(want)[:200]}")
+    # ---- correspondence: the Lean models of the library moves vs the real event logs ----------
+    mm = ctx.driver([r[1] for r in C.model_rows])
+    for (case, req, impl), m in zip(C.model_rows, mm):
+        if m.startswith("bad"):
+            raise HarnessFault(f"driver rejected a model request: {req[:300]}")
+        ctx.count("model_compared")
+        ctx.count("model_" + m.split(" ")[0])
+        if m != impl:
+            ctx.disagree(dict(case, request=req[:600]), impl[:600], m[:600], "library move vs Model/StdMoves.lean")
     for k in (0, len(C.lines) // 2, len(C.lines) - 1):
         if 0 <= k < len(C.lines):
             ctx.sample({"case": C.lines[k][0], "paths": C.lines[k][6][:600], "simulator": model[k][:200]})
